@@ -38,7 +38,7 @@ def run(ctx):
         behaviours = rnd.sample(behaviours, cap)
         ctx.extra["registry_behaviours_sampled"] = cap
     chunks = [behaviours[i::16] for i in range(16) if behaviours[i::16]]
-    results = ctx.harness_parallel("registry_replay.py", [{"behaviours": c} for c in chunks], procs=16)
+    results = ctx.harness_parallel("registry_replay.py", [{"behaviours": c, "repo": REPO} for c in chunks], procs=16)
     nb = sum(x["behaviours"] for x in results)
     nconv = sum(x["conversions"] for x in results)
     nviol = 0
